@@ -4,6 +4,9 @@
 #![allow(dead_code)]
 
 mod alloc;
+mod c01;
+mod c03;
+mod c06;
 mod c07;
 mod fdrive;
 mod indep;
@@ -34,8 +37,87 @@ const RVS_F: &[(&str, &str)] = &[
     ("clock", "none needed"),
 ];
 
+fn scn_c01() -> Scenario {
+    Scenario {
+        name: "F-roundtrip",
+        engine: "F",
+        run: c01::run,
+        quick: 150_000,
+        thorough: 3_000_000,
+        grid: 0,
+        what: "EncodeBody (client/server role, 4 encodings, raw/prost codec, buffer settings) under a drawn source-readiness schedule and under the all-Ready reference; bytes re-cut and fed with delays into Streaming",
+    }
+}
+
+fn scn_c06_dec() -> Scenario {
+    Scenario {
+        name: "F-limit-decode",
+        engine: "F",
+        run: c06::run_decode,
+        quick: 100_000,
+        thorough: 2_000_000,
+        grid: 0,
+        what: "Streaming with a decoding limit: frames whose wire length is limit-1/limit/limit+1 (also compressed, also around the 4 MiB default), declared lengths up to 2^32-1 with a silent peer, counting allocator",
+    }
+}
+
+fn scn_c06_enc() -> Scenario {
+    Scenario {
+        name: "F-limit-encode",
+        engine: "F",
+        run: c06::run_encode,
+        quick: 100_000,
+        thorough: 2_000_000,
+        grid: 0,
+        what: "EncodeBody with an encoding limit: an oversized message at any position; earlier messages buffered or flushed depending on source readiness and yield threshold",
+    }
+}
+
+fn scn_c06_4g() -> Scenario {
+    Scenario {
+        name: "F-encode-4gib",
+        engine: "F",
+        run: c06::run_encode_4gib,
+        quick: 0,
+        thorough: 8,
+        grid: 0,
+        what: "an encoder output of 2^32+1 untouched bytes must end the call with RESOURCE_EXHAUSTED",
+    }
+}
+
 fn props() -> Vec<Property> {
-    vec![Property {
+    vec![
+    Property {
+        id: "C01",
+        title: "Message streams survive encode/decode unchanged under any chunking",
+        scenarios: vec![scn_c01()],
+        rule: "one run = (role, encoding, codec, encoder/decoder buffer settings, 0..8 messages with boundary-biased sizes) x source readiness pattern x chunking of the emitted bytes x body readiness pattern; non-trivial = at least one injected Pending or a cut inside the byte stream; distinct = distinct hash of all structural tape decisions",
+        real_vs_stub: RVS_F.to_vec(),
+        assumptions: vec!["flate2 write::* / zstd bulk are a faithful reference for inflating what tonic compressed", "per-response compression opt-out is exercised through server::Grpc in the C02/C05 loopback scenarios, not here"],
+        required_probes: vec!["cut-inside-prefix", "cut-inside-compressed-payload", "pending-with-nonempty-buf", "zero-length-message", "message-larger-than-decoder-buffer", "cut-one-byte-chunks"],
+    },
+    Property {
+        id: "C03",
+        title: "Requests and responses on the wire are spec-conformant gRPC",
+        scenarios: vec![scn_c01(), scn_c06_enc()],
+        rule: "passive wire monitor on the C01/C06 (and loopback) runs: every emitted body is parsed by the independent decoder; non-trivial/distinct as in the host scenario",
+        real_vs_stub: RVS_F.to_vec(),
+        assumptions: vec!["'nothing after the trailers block' is judged the way hyper's HTTP/2 sender consumes a body (stops after trailers / error / None / end-stream flag)"],
+        required_probes: vec!["encoder-emitted-several-data-frames"],
+    },
+    Property {
+        id: "C06",
+        title: "Message size limits are enforced exactly and without collateral loss",
+        scenarios: vec![scn_c06_dec(), scn_c06_enc(), scn_c06_4g()],
+        rule: "one run = a stream of small messages with one probe message whose wire length sits at limit-1/limit/limit+1 (or a declared length with no payload) x chunking x readiness x role/direction; every run is non-trivial; distinct = distinct hash of all structural tape decisions",
+        real_vs_stub: RVS_F.to_vec(),
+        assumptions: vec![
+            "for compressed outgoing messages the harness cannot know tonic's exact compressed length, so the accept/refuse verdict is judged only away from the boundary (conservation is judged always)",
+            "allocation is observed with a counting global allocator: no single allocation >= 1 MiB while refusing a declared length >= 1 MiB under a limit <= 64 KiB",
+        ],
+        required_probes: vec!["limit-exactly-hit", "declared-length-without-payload", "refused-without-payload", "allocation-watched", "oversized-candidate-not-first", "oversized-candidate-first", "encode-over-limit", "encode-within-limit"],
+    },
+    Property {
         id: "C07",
         title: "Hostile or truncated input ends a stream with one error, never a hang or panic",
         scenarios: vec![Scenario {
@@ -54,7 +136,8 @@ fn props() -> Vec<Property> {
             "a compressed frame the independent inflater rejects is not judged for content (only framing alignment)",
         ],
         required_probes: vec!["cut-inside-prefix", "cut-one-byte-chunks", "body-polled-after-end"],
-    }]
+    },
+    ]
 }
 
 fn main() {
